@@ -41,6 +41,8 @@ def replay_wulff(data):
     cases.append((rd, np.ones(12)))
     cases.append((np.vstack([cube, octa]), np.r_[np.ones(6), (2 / np.sqrt(3)) * np.ones(8)]))
     cases.append((np.vstack([octa, np.array([[0, 0, 1.0], [0, 0, -1.0]])]), np.r_[np.ones(8), 1.1, 1.1]))
+    # a cube whose corners are cut by tiny {111} facets: true edges of length 1.4e-3, far above the pruning threshold of 1e-5
+    cases.append((np.vstack([cube, octa]), np.r_[np.ones(6), ((3 - 1e-3) / np.sqrt(3)) * np.ones(8)]))
     for normals, e in cases:
         try:
             w = WulffConstruction(normals, e)
@@ -217,9 +219,15 @@ def part_order(ctx, thorough):
             for k in range(npts):
                 (ax, ay), (bx, by), (cx, cy) = U[k], U[(k + 1) % npts], U[(k + 2) % npts]
                 convex.append((((bx - ax) * (cy - by) - (by - ay) * (cx - bx)) > Fraction(1, 100)).t)   # strictly convex, CCW about n
+                # every other vertex lies to the left of the edge (left turns alone also admit star polygons from 5 points on)
+                for j in range(npts):
+                    if j not in (k, (k + 1) % npts, (k + 2) % npts):
+                        (px, py) = U[j]
+                        convex.append((((bx - ax) * (py - ay) - (by - ay) * (px - ax)) > 0).t)
             for i in range(npts):
                 for j in range(i + 1, npts):
-                    convex.append((((U[i][0] - U[j][0]) ** 2 + (U[i][1] - U[j][1]) ** 2) > Fraction(1, 100)).t)
+                    # corners are distinct by clearly more than the documented pruning threshold (1e-5): short edges are allowed
+                    convex.append((((U[i][0] - U[j][0]) ** 2 + (U[i][1] - U[j][1]) ** 2) > Fraction(1, 10 ** 9)).t)
             pts = np.array([Q[i] for i in perm], dtype=object).view(symx.OArr)
             ex = Explorer(assumptions=convex, max_paths=4000, branch_timeout_ms=5000)
             paths = ex.run(lambda: mw.ordered_facets(pts, [list(range(npts))], [np.array([float(x) for x in nn])]))
